@@ -177,7 +177,7 @@ void Drain()
         har::obs("os x recv " + l.substr(lp + 4, le - lp - 4) + " " + res);
       }
     } else if(w[0] == "ssl" || w[0] == "sslret" || w[0] == "sslexn" || w[0] == "bio" || w[0] == "api" || w[0] == "ret" ||
-              w[0] == "rx" || w[0] == "disc" || w[0] == "fut" || w[0] == "enq" || w[0] == "peer" || w[0] == "destroy") {
+              w[0] == "rx" || w[0] == "disc" || w[0] == "fut" || w[0] == "enq" || w[0] == "peer" || w[0] == "destroy" || w[0] == "dpend") {
       if((w[0] == "ssl" || w[0] == "sslret" || w[0] == "sslexn" || w[0] == "bio") && w.size() >= 2 && w[1] != "x") continue;
       har::obs(l);
     }
@@ -321,6 +321,12 @@ int XStep(X &x, long T)
   size_t doneBefore = 0;
   for(auto d : x.futDone) doneBefore += d;
   vos::log_note("api dx step " + std::to_string(T));
+#ifdef SOCKPUPPET_WITH_TLS
+  // what DriverQuery will see: decrypted bytes the asynchronous TLS socket still holds inside OpenSSL
+  for(auto const &p : reg::ssls) {
+    if(p.second == "x") vos::log_note("dpend x " + std::to_string(SSL_pending(p.first)));
+  }
+#endif
   int rc = 0;
   try {
     x.driver->Step(Duration(T));
